@@ -65,6 +65,12 @@ def run_case(ctx, rng, idx):
     if same_count_edit(rng, h):
         ctx.event("re-evaluated-after-in-place-edit")
         undirected_eval(ctx, rng, idx, h)
+    if rng.random() < 0.3:  # the same hypergraph reached through other calls (copy of a copy / clear() and re-insertion)
+        from ..mutate import second_order
+
+        lab, g2 = second_order(rng, h)
+        ctx.event("re-evaluated-on-" + lab)
+        undirected_eval(ctx, rng, idx, g2)
 
 
 def undirected_eval(ctx, rng, idx, h):
@@ -184,6 +190,12 @@ def directed_case(ctx, rng, idx):
     if same_count_edit(rng, h, directed=True):
         ctx.event("re-evaluated-after-in-place-edit")
         directed_eval(ctx, rng, idx, h)
+    if rng.random() < 0.3:  # the same hypergraph reached through other calls (copy of a copy / clear() and re-insertion)
+        from ..mutate import second_order
+
+        lab, g2 = second_order(rng, h, directed=True)
+        ctx.event("re-evaluated-on-" + lab)
+        directed_eval(ctx, rng, idx, g2)
 
 
 def directed_eval(ctx, rng, idx, h):
